@@ -420,6 +420,231 @@ fn drive<S: Settings>(sc: &Scenario, settings: &S, math: &CpuMath<RichDens>, sch
     Ok(None)
 }
 
+// ---------------------------------------------------------------------------------------------
+// the public route: Sampler::flush -> ChainProcess::flush, at quiescent points of a real run
+// ---------------------------------------------------------------------------------------------
+
+struct PlainNormal {
+    dim: usize,
+    /// sleep per density evaluation (keeps a run alive long enough to be paused mid-way)
+    delay_us: u64,
+}
+
+#[derive(Debug)]
+struct NeverErr;
+impl std::fmt::Display for NeverErr {
+    fn fmt(&self, f: &mut std::fmt::Formatter<'_>) -> std::fmt::Result {
+        write!(f, "never")
+    }
+}
+impl std::error::Error for NeverErr {}
+impl nuts_rs::LogpError for NeverErr {
+    fn is_recoverable(&self) -> bool {
+        true
+    }
+}
+
+impl nuts_rs::HasDims for PlainNormal {
+    fn dim_sizes(&self) -> HashMap<String, u64> {
+        HashMap::from([("unconstrained_parameter".to_string(), self.dim as u64), ("dim".to_string(), self.dim as u64)])
+    }
+}
+
+impl nuts_rs::CpuLogpFunc for PlainNormal {
+    type LogpError = NeverErr;
+    type FlowParameters = ();
+    type ExpandedVector = Vec<f64>;
+    fn dim(&self) -> usize {
+        self.dim
+    }
+    fn logp(&mut self, position: &[f64], grad: &mut [f64]) -> Result<f64, NeverErr> {
+        if self.delay_us > 0 {
+            std::thread::sleep(std::time::Duration::from_micros(self.delay_us));
+        }
+        let mut lp = 0.0;
+        for i in 0..position.len() {
+            let s = 0.5 + i as f64;
+            grad[i] = -position[i] / (s * s);
+            lp -= 0.5 * position[i] * position[i] / (s * s);
+        }
+        Ok(lp)
+    }
+    fn expand_vector<R: rand::Rng + ?Sized>(&mut self, _rng: &mut R, array: &[f64]) -> Result<Vec<f64>, nuts_rs::CpuMathError> {
+        Ok(array.to_vec())
+    }
+}
+
+struct PlainModel {
+    delay_us: u64,
+}
+impl nuts_rs::Model for PlainModel {
+    type Math<'m> = CpuMath<PlainNormal>;
+    fn math<R: rand::Rng + ?Sized>(&self, _rng: &mut R) -> anyhow::Result<Self::Math<'_>> {
+        Ok(CpuMath::new(PlainNormal { dim: 3, delay_us: self.delay_us }))
+    }
+    fn init_position<R: rand::Rng + ?Sized>(&self, _rng: &mut R, position: &mut [f64]) -> anyhow::Result<()> {
+        for (i, p) in position.iter_mut().enumerate() {
+            *p = 0.1 * (i as f64 + 1.0);
+        }
+        Ok(())
+    }
+}
+
+/// every f64 / u64 / bool array below the four groups, as bit patterns per (array, chain)
+fn dump_store(store: Arc<zarrs::storage::store::MemoryStore>, names: &[(String, String)]) -> Result<std::collections::BTreeMap<(String, usize), Vec<u64>>, String> {
+    use zarrs::array::{Array, ArraySubset};
+    let mut out = std::collections::BTreeMap::new();
+    for (group, name) in names {
+        let path = format!("/{group}/{name}");
+        let arr = Array::open(store.clone(), &path).map_err(|e| format!("open {path}: {e}"))?;
+        let shape = arr.shape().to_vec();
+        if shape.iter().any(|s| *s == 0) {
+            continue;
+        }
+        let subset = ArraySubset::new_with_shape(shape.clone());
+        let ty = arr.data_type().to_string();
+        let flat: Vec<u64> = match ty.split_whitespace().next().unwrap_or("") {
+            "float64" => arr.retrieve_array_subset::<Vec<f64>>(&subset).map_err(|e| format!("read {path}: {e}"))?.iter().map(|x| if x.is_nan() { u64::MAX } else { x.to_bits() }).collect(),
+            "uint64" => arr.retrieve_array_subset::<Vec<u64>>(&subset).map_err(|e| format!("read {path}: {e}"))?,
+            "bool" => arr.retrieve_array_subset::<Vec<bool>>(&subset).map_err(|e| format!("read {path}: {e}"))?.iter().map(|b| *b as u64).collect(),
+            other => {
+                if std::env::var("VERIF_VERBOSE").is_ok() {
+                    eprintln!("dump_store: skipping {path} of type {other}");
+                }
+                continue;
+            }
+        };
+        let per_chain = flat.len() / shape[0] as usize;
+        for c in 0..shape[0] as usize {
+            out.insert((path.clone(), c), flat[c * per_chain..(c + 1) * per_chain].to_vec());
+        }
+    }
+    Ok(out)
+}
+
+/// Sampler::flush at the two quiescent points of a real two-chain run: (i) all chains have
+/// finished their draws but the sampler is not finalised, (ii) all chains are paused mid-run.
+/// Differential oracle: what a fresh reader sees after the flush must be what the finalised
+/// store holds for the same rows (finalisation is the reference).
+fn sampler_level_flush(p: &mut Partial) {
+    use nuts_rs::{Sampler, SamplerWaitResult};
+    use std::time::Duration;
+    for (num_tune, num_draws, chunk, pause_first) in [(6u64, 7u64, 4u64, false), (5, 3, 100, false), (0, 5, 3, false), (6, 7, 4, true), (3, 9, 2, true)] {
+        let key = format!("Sampler-flush/tune{num_tune}-draws{num_draws}-chunk{chunk}-{}", if pause_first { "paused" } else { "finished" });
+        let replay = json!({"num_tune": num_tune, "num_draws": num_draws, "chunk": chunk, "pause_first": pause_first});
+        p.evaluations += 1;
+        let settings = nuts_rs::DiagNutsSettings { num_tune, num_draws, num_chains: 2, seed: 11, maxdepth: 3, ..Default::default() };
+        let store = Arc::new(zarrs::storage::store::MemoryStore::new());
+        let cfg = ZarrConfig::new(store.clone()).with_chunk_size(chunk);
+        let mut sampler = match Sampler::new(PlainModel { delay_us: if pause_first { 1500 } else { 0 } }, settings, cfg, 2, None) {
+            Ok(s) => s,
+            Err(e) => {
+                p.violation(format!("C15/sampler-construction-failed/{key}"), format!("{e:#}"), replay);
+                continue;
+            }
+        };
+        let total = (num_tune + num_draws) as usize;
+        let wait_until = |sampler: &mut Sampler<()>, pred: &dyn Fn(&[nuts_rs::ChainProgress]) -> bool| -> bool {
+            let t0 = std::time::Instant::now();
+            loop {
+                if let Ok(pr) = sampler.progress() {
+                    if pred(&pr) {
+                        return true;
+                    }
+                }
+                if t0.elapsed() > Duration::from_secs(20) {
+                    return false;
+                }
+                std::thread::sleep(Duration::from_millis(2));
+            }
+        };
+        let mut flushed_rows: Vec<usize> = vec![total, total];
+        if pause_first {
+            // let both chains record a few draws, then pause
+            let _ = wait_until(&mut sampler, &|pr| pr.iter().all(|c| c.finished_draws >= 3));
+            let _ = sampler.pause();
+            // quiescent once two successive progress snapshots agree
+            let last: std::cell::RefCell<Option<Vec<usize>>> = std::cell::RefCell::new(None);
+            let _ = wait_until(&mut sampler, &|pr| {
+                let cur: Vec<usize> = pr.iter().map(|c| c.finished_draws).collect();
+                std::thread::sleep(Duration::from_millis(30));
+                let same = last.borrow().as_ref() == Some(&cur);
+                *last.borrow_mut() = Some(cur);
+                same
+            });
+            std::thread::sleep(Duration::from_millis(50));
+            if let Ok(pr) = sampler.progress() {
+                flushed_rows = pr.iter().map(|c| c.finished_draws).collect();
+            }
+        } else if !wait_until(&mut sampler, &|pr| pr.iter().all(|c| c.finished_draws >= c.total_draws)) {
+            p.count("sampler_level_runs_that_did_not_finish_in_time", 1);
+            let _ = sampler.abort();
+            continue;
+        }
+        if let Err(e) = sampler.flush() {
+            p.violation(format!("C15/sampler-flush-failed/{key}"), format!("{e:#}"), replay);
+            let _ = sampler.abort();
+            continue;
+        }
+        p.transitions += 1;
+        let names: Vec<(String, String)> = [("posterior", "value"), ("warmup_posterior", "value"), ("sample_stats", "depth"), ("sample_stats", "logp"), ("sample_stats", "diverging"), ("warmup_sample_stats", "depth"), ("warmup_sample_stats", "logp"), ("warmup_sample_stats", "step_size")]
+            .iter()
+            .map(|(g, n)| (g.to_string(), n.to_string()))
+            .collect();
+        let after_flush = dump_store(store.clone(), &names);
+        if pause_first {
+            let _ = sampler.resume();
+        }
+        let mut s = sampler;
+        let fin = loop {
+            match s.wait_timeout(Duration::from_secs(20)) {
+                SamplerWaitResult::Trace(_) => break true,
+                SamplerWaitResult::Timeout(s2) => {
+                    let _ = s2.abort();
+                    break false;
+                }
+                SamplerWaitResult::Err(..) => break false,
+            }
+        };
+        if !fin {
+            p.count("sampler_level_runs_that_did_not_finish_in_time", 1);
+            continue;
+        }
+        let after_final = dump_store(store.clone(), &names);
+        if std::env::var("VERIF_VERBOSE").is_ok() {
+            eprintln!("{key}: flushed_rows {flushed_rows:?}, arrays after flush {:?}", after_flush.as_ref().map(|m| m.len()));
+        }
+        p.states += 2;
+        match (after_flush, after_final) {
+            (Ok(a), Ok(b)) => {
+                'cmp: for ((path, c), fin_vals) in &b {
+                    let Some(fl_vals) = a.get(&(path.clone(), *c)) else { continue };
+                    let warm = path.contains("warmup");
+                    // rows of this phase covered by the flush
+                    let rows_phase = if warm { flushed_rows[*c].min(num_tune as usize) } else { flushed_rows[*c].saturating_sub(num_tune as usize) };
+                    let phase_len = if warm { num_tune as usize } else { num_draws as usize };
+                    if phase_len == 0 {
+                        continue;
+                    }
+                    let per_row = fin_vals.len() / phase_len;
+                    let n = rows_phase * per_row;
+                    if fl_vals.len() < n || fl_vals[..n] != fin_vals[..n] {
+                        let first = (0..n).find(|i| fl_vals.get(*i) != fin_vals.get(*i)).unwrap_or(0) / per_row.max(1);
+                        p.violation(
+                            format!("C15/incomplete-after-sampler-flush/{key}"),
+                            format!("{path} chain {c}: row {first} of the {rows_phase} rows recorded before Sampler::flush() returned differs from the finalised store (fill value instead of the draw)"),
+                            replay.clone(),
+                        );
+                        break 'cmp;
+                    }
+                }
+                p.class(format!("sampler-flush:{}", if pause_first { "paused" } else { "finished" }));
+            }
+            (Err(e), _) | (_, Err(e)) => p.violation(format!("C15/store-unreadable/{key}"), e, replay),
+        }
+    }
+}
+
 pub fn run(tier: Tier, _replay: Option<String>) -> i32 {
     let mut report = Report::new(
         "C15",
@@ -513,5 +738,10 @@ pub fn run(tier: Tier, _replay: Option<String>) -> i32 {
         }
         report.merge(p);
     });
+    {
+        let mut p = Partial::new();
+        sampler_level_flush(&mut p);
+        report.merge(p);
+    }
     report.finish()
 }
